@@ -4,8 +4,8 @@
     represented.  Model file: definitions only.
 
     Addresses are indices into [heap]; [None] is the null pointer.  Every
-    ConfigItemRef is an [iref]; a copy-on-write reference carries its
-    [copied_] flag, so functions that write through references return the
+    ConfigItemRef is an [iref]; a copy-on-write reference carries the
+    container it copied ([copied_] and [container_]), so functions that write through references return the
     updated reference.  [resolve_deps] is ConfigCompiler::ResolveDependencies;
     its recursion is bounded by explicit fuel ([st_oof] records exhaustion);
     walks down the heap (MergeTree's recursion, readback) have their own fuel
@@ -28,7 +28,8 @@ Inductive iref :=
 | RRes (id : str)                                     (* ConfigResource *)
 | RMapE (a : nat) (k : str)                           (* ConfigMapEntryRef *)
 | RListE (a : nat) (i : nat)                          (* ConfigListEntryRef *)
-| RCow (islist : bool) (parent : iref) (k : str) (copied : bool).  (* ConfigCowRef<T> *)
+| RCow (islist : bool) (parent : iref) (k : str) (copied : option nat).
+    (* ConfigCowRef<T>; [copied] = the container this reference copied and keeps writing to *)
 
 Inductive dep :=
 | DPending (child_path : str)
@@ -154,26 +155,24 @@ Fixpoint set_item (st : state) (r : iref) (v : ptr) : state * iref :=
        | _ => set_ub st
        end, r)
   | RCow islist p k copied =>
-      let cont := if islist
-                  then option_map fst (as_list st (get_item st p))
-                  else option_map fst (as_map st (get_item st p)) in
-      if copied then
-        match cont with
-        | Some a => (cow_write st islist a k v, r)
-        | None => (set_ub st, r)
-        end
-      else
+      match copied with
+      | Some a => (cow_write st islist a k v, r)
+      | None =>
+        let cont := if islist
+                    then option_map fst (as_list st (get_item st p))
+                    else option_map fst (as_map st (get_item st p)) in
         let node := match cont with
                     | Some a => match hget (st_heap st) a with Some n => n | None => HMap [] end
                     | None => if islist then HList [] else HMap []
                     end in
         let '(a', st1) := alloc st node in
         let '(st2, p') := set_item st1 p (Some a') in
-        (cow_write st2 islist a' k v, RCow islist p' k true)
+        (cow_write st2 islist a' k v, RCow islist p' k (Some a'))
+      end
   end.
 
 (** Cow(parent, key) *)
-Definition cow (parent : iref) (k : str) : iref := RCow (is_list_ref k) parent k false.
+Definition cow (parent : iref) (k : str) : iref := RCow (is_list_ref k) parent k None.
 
 Definition node_is_list (n : hnode) := match n with HList _ => true | _ => false end.
 Definition node_is_map (n : hnode) := match n with HMap _ => true | _ => false end.
